@@ -220,11 +220,17 @@ fn visit_ucg_files(
             let next_path = next_item.path();
             let path_as_string = String::from(next_path.to_string_lossy());
             if next_path.is_dir() && recurse {
-                if let Err(e) =
-                    visit_ucg_files(&next_path, recurse, validate, strict, import_paths, env)
-                {
-                    eprintln!("{}", e);
-                    result = false;
+                match visit_ucg_files(&next_path, recurse, validate, strict, import_paths, env) {
+                    // A failure anywhere below this directory fails the whole run.
+                    Ok(ok) => {
+                        if !ok {
+                            result = false;
+                        }
+                    }
+                    Err(e) => {
+                        eprintln!("{}", e);
+                        result = false;
+                    }
                 }
             } else {
                 if validate && path_as_string.ends_with("_test.ucg") {
